@@ -24,12 +24,13 @@ class QResult:
     self.instrumented = None
     self.nqueries = 0
     self.trace_error = None
+    self.restarts = []              # one snapshot per 'restart' operation (a further start_at of the same chart object)
     self.cur_after_queries = []     # (number of steps run so far, current_state() asked right after client queries)
 
 
 def run(spec, start, ext_ops, cfg, pre_start_ops=(), max_steps=400, query_rng=None):
   res = QResult()
-  run_ = cg.Run(spec, spied=cfg.get('spied', True), foreign_deco=cfg.get('deco') == 'wraps')
+  run_ = cg.Run(spec, spied=cfg.get('spied', True), foreign_deco=cfg.get('deco') or False)
   res.run = run_
   host = cfg['host']
   sem = threading.Semaphore(0)
@@ -68,6 +69,8 @@ def run(spec, start, ext_ops, cfg, pre_start_ops=(), max_steps=400, query_rng=No
     chart = SyncAO(name='ao_chart' if cfg.get('named', True) else None, instrumented=cfg.get('instrumented', True))
     chart._vt_exc = None
     chart._vt_busy = False
+    if not cfg.get('instrumented', True):
+      chart.instrumented = False       # the constructor of ActiveObject loses the flag (it lands in maxlen)
   else:
     chart = cg.counted_host(HsmWithQueues, run_)(instrumented=cfg.get('instrumented', True))
   chart.live_spy = cfg.get('live_spy', False)
@@ -134,12 +137,19 @@ def run(spec, start, ext_ops, cfg, pre_start_ops=(), max_steps=400, query_rng=No
         res.nqueries += 1
       if chart.instrumented:
         # the chart took no step: current_state() must still name the state it rests in
-        res.cur_after_queries.append((len(res.steps), chart.current_state()))
+        res.cur_after_queries.append(((len(res.steps), len(res.restarts)), chart.current_state()))
       run_.reset_logs()
     try:
       drain()
       queries()
       for kind, sig in ext_ops:
+        if kind == 'restart':
+          # the SAME chart object is started again (the client re-initialises it), the chart idle and its queue empty
+          chart.start_at(run_.fns[sig])
+          snapshot(chart, res.restarts)
+          drain()
+          queries()
+          continue
         if kind in ('clear_spy', 'clear_trace'):
           # the client empties the full spy / trace between two steps (the object is idle)
           getattr(chart, kind)()
